@@ -25,7 +25,7 @@ def _env(seed):
         PYTHONDONTWRITEBYTECODE="1",
         OMP_NUM_THREADS="1",
         MKL_NUM_THREADS="1",
-        PYTHONPATH=VERIF + os.pathsep + "/repo",
+        PYTHONPATH=VERIF + os.pathsep + os.environ.get("VERIF_REPO", "/repo"),
         LANL_PYSEQM_VERIF="1",
         PYTHONHASHSEED=str(seed % 4294967295),
         PYTHONWARNINGS="ignore",
@@ -58,7 +58,7 @@ def run_ob(pid, name, tier, seed, scratch):
 
 def check_property(pid, tier, seed, only=None, jobs=None, verbose=True):
     t0 = time.time()
-    ev_path = os.path.join(VERIF, "evidence", "%s.json" % pid)
+    ev_path = os.path.join(os.environ.get("VERIF_EVIDENCE", os.path.join(VERIF, "evidence")), "%s.json" % pid)
     os.makedirs(os.path.dirname(ev_path), exist_ok=True)
     if os.path.exists(ev_path):
         os.remove(ev_path)
